@@ -329,6 +329,41 @@ impl Explorer {
                 cands.push(m);
             }
         }
+        // corners: every non-zero input at the low end, the (geometric) middle or the high end of its regime-restricted
+        // domain - all combinations for up to five inputs, a seeded selection of 200 beyond that.  Extreme ratios
+        // between inputs (production far above use, an export that outweighs the delivery) are where clamps and
+        // sign-dependent code change regime without any change of path.
+        {
+            let live: Vec<&&dag::VarInfo> = vars.iter().filter(|a| cur(a) != 0.0 && a.lo.is_finite() && a.hi.is_finite() && a.lo < a.hi).collect();
+            let levels = |a: &dag::VarInfo| -> [f32; 3] {
+                let x = cur(a);
+                let (lo, hi) = if x > 0.0 { (a.lo.max(0.0), a.hi.min(1.0e5)) } else { (a.lo.max(-1.0e5), a.hi.min(0.0)) };
+                let mid = if lo > 0.0 && hi > 0.0 { (lo * hi).sqrt() } else if lo < 0.0 && hi < 0.0 { -((-lo) * (-hi)).sqrt() } else { 0.5 * (lo + hi) };
+                [lo, mid, hi]
+            };
+            let kk = live.len();
+            if kk > 0 {
+                let total: u64 = if kk <= 5 { 3u64.pow(kk as u32) } else { 200 };
+                let mut st2: u64 = (self.opts.seed ^ 0x2545f4914f6cdd1d).wrapping_mul(0x9e3779b97f4a7c15) | 1;
+                for idx in 0..total {
+                    let mut code = if kk <= 5 {
+                        idx
+                    } else {
+                        st2 ^= st2 << 13;
+                        st2 ^= st2 >> 7;
+                        st2 ^= st2 << 17;
+                        st2
+                    };
+                    let mut m = c.witness.clone();
+                    for a in &live {
+                        let l = levels(a);
+                        m.insert(a.name.clone(), l[(code % 3) as usize].to_bits());
+                        code /= 3;
+                    }
+                    cands.push(m);
+                }
+            }
+        }
         // seeded draws: every input log-uniform over (the moderate part of) its regime-restricted domain
         let mut st: u64 = (self.opts.seed ^ 0x9e3779b97f4a7c15).wrapping_mul(0xbf58476d1ce4e5b9) | 1;
         let mut next = move || {
@@ -355,7 +390,7 @@ impl Explorer {
             cands.push(m);
         }
         for m in cands {
-            if out.len() >= 256 {
+            if out.len() >= 400 {
                 break;
             }
             let vals = c.eval_all(&m);
